@@ -152,6 +152,15 @@ CHECKS = {
         'monitor: every table entry through evaluator() on real and complex grids, branch cuts, poles, extreme magnitudes against math/cmath, inverse identities f(f_inv(z)) = z, principal ranges, constants and matrix functions; no nan/inf value, only student-facing errors.',
    note=PROOF_NOTE + ' Partial: numpy / scimath primitives (values, complex continuation, accuracy) are not modelled - they are parameters of the generated definitions and are monitored; the generated definitions are over the reals. factorial needs scipy and is excluded. Trusted in addition: the AST translator (80 lines, output committed and regenerated each run).',
    technique='Lean 4 proof about definitions regenerated from the source (translator) using Mathlib real analysis; kernel-checked table equality; decorator decision theorems + correspondence + value monitor', design='§6 C15'),
+ 'C20': dict(
+   text='The schema_config of every public class (29: graders, samplers, comparers, credit schedules, SpecifyDomain) is TRANSLATED from the live voluptuous objects into terms of a Lean model of the voluptuous fragment the library uses (types with Python isinstance semantics, literals with Python equality, Any, All, Range, Length, NotIn, homogeneous lists, dictionaries with Required/Optional keys, defaults and the extra-keys policy; named validator functions as opaque prims) on every run. '
+        'Proved for every schema of the fragment: the validated configuration binds every option that is supplied or has a default, to the supplied value or else the default (option names distinct); unknown option names are rejected; an out-of-domain value of a known option is rejected; validation is idempotent - a validated configuration validates to itself - provided every default lies in its own option\'s domain; the result depends on the supplied bindings only through lookup (keyword-argument and dictionary forms are equivalent). '
+        'Kernel-checked obligations on the regenerated schemas: option names are distinct and every default lies in the domain of its own option, in every class; the regenerated schemas equal the documented tables (names, required/optional, defaults, domains). '
+        'Tie: for every class and every option without a named validator, the minimal configuration with that option set to each value of a pool of in-domain and out-of-domain values, unknown keys and random multi-option combinations: validate_config outcome and validated configuration vs the model, constructor raises only configuration/validation errors; '
+        'per class: every option present with its default, Cls(obj.config) == obj, kwargs vs dict; non-default configurations in both forms compared for equality and grading behaviour; 40 cross-option rule violations (whitelist+blacklist, unordered subgrader lists, groupings, nested delimiters, collisions/overrides, sample_from, input_positions, answer-list lengths, impossible matrix combinations ...) and the documented answers formats with their canonical form.',
+   note=PROOF_NOTE + ' Partial: coercions (Coerce, PercentageString normalisation, answer canonicalisation, nested-dictionary default filling) and named validator functions are not modelled - options whose domain contains one are compared on acceptance/default only and exercised by the cross-rule and answers-format tables on the implementation. '
+        'Findings: F10 (TypeError instead of a validation error for wrongly typed option values; repaired in the vendored voluptuous as upstream does), K5 and K6 are announced as known findings.',
+   technique='Lean 4 proof (generic theorems about a mini-voluptuous: default filling, unknown keys, idempotence by induction over the option list) + translator-generated schema obligations + constructor correspondence', design='§6 C20'),
  'C11': dict(
    text='ItemGrader.__call__ / AbstractGrader.__call__ modelled as a state machine over the grader object (stored answers, inferring flag, log flag, debug log) with validation, text check and grading as parameters; proved by induction over ANY call history '
         '(including calls that raise in validation, in the input check or in grading): the next call returns what a freshly constructed grader returns for the current expect value or the last successfully supplied one; '
